@@ -54,12 +54,14 @@ Definition days_from_civil_m (y0 m d : Z) : option Z :=
   do r1 <- s32 (e1 + wraps 32 doe);
   s32 (r1 - 719468).
 
-(* weekday::weekday_from_days(int tp) -> uint8 *)
+(* weekday::weekday_from_days(int tp) -> uint8.  The day count is widened to long long first (since 075a3cf; `tp + 4`
+   in int overflowed for the last four int32 day counts), so the checked operations are 64-bit ones. *)
+Definition s64 (x : Z) : option Z := chk i64 x.
 Definition weekday_from_days_m (tp : Z) : option Z :=
   if tp >=? -4 then
-    do a <- s32 (tp + 4); Some (wrapu 8 (Z.rem a 7))
+    do a <- s64 (tp + 4); Some (wrapu 8 (Z.rem a 7))
   else
-    do a <- s32 (tp + 5); do b <- s32 (Z.rem a 7 + 6); Some (wrapu 8 b).
+    do a <- s64 (tp + 5); do b <- s64 (Z.rem a 7 + 6); Some (wrapu 8 b).
 
 (* year::is_leap on the stored int16 value *)
 Definition is_leap_m (y : Z) : bool :=
